@@ -11,6 +11,9 @@ mod polys;
 mod c01;
 mod c03;
 mod c04;
+mod gen_macros;
+mod macrovals;
+mod c06;
 mod c07;
 mod c08;
 mod c09;
@@ -56,6 +59,7 @@ fn real_main() {
                 "C01" | "C02" => c01::replay(&toks, &mut out, req),
                 "C03" => c03::replay(&toks, &mut out),
                 "C04" | "C05" => c04::replay(&toks, &mut out),
+                "C06" => c06::replay(&toks, &mut out),
                 "C07" => c07::replay(&toks, &mut out),
                 "C08" => c08::replay(&toks, &mut out),
                 "C09" => c09::replay(&toks, &mut out),
@@ -80,6 +84,7 @@ fn real_main() {
             "C02" => c01::generate(&mut rng, thorough, &mut out, true),
             "C03" => c03::generate(&mut rng, thorough, &mut out),
             "C04" | "C05" => c04::generate(&mut rng, thorough, &mut out),
+            "C06" => c06::generate(&mut rng, thorough, &mut out),
             "C07" => c07::generate(&mut rng, thorough, &mut out),
             "C08" => c08::generate(&mut rng, thorough, &mut out),
             "C09" => c09::generate(&mut rng, thorough, &mut out),
